@@ -32,6 +32,8 @@ class CodecElement(object):
 		for encoding in (self.value, mimetype):
 			if self.CODECS is not None:
 				encoding = self.CODECS.get(encoding)
+				if encoding is NotImplementedError:
+					return None
 				if not isinstance(encoding, (bytes, Unicode)):
 					return encoding
 			try:
